@@ -24,13 +24,30 @@ def ex_filterblock(repo):
     return [f]
 
 
-def obligations():
-    return [
-        KModelOb('O3.1-filter-block', 'filterblock', 'filter_block_one_tx', 'Storage::filter_block (real text): the committed batch is exactly the ground-truth delta - live cell + history + '
+def ex_fetched(repo):
+    s = Source(repo, STORAGE)
+    a = s.item(r'^    pub fn add_fetched_header'); a.prefix = 'impl Storage {\n'
+    b = s.item(r'^    pub fn add_fetched_tx'); b.suffix = '\n}'
+    return [a, b]
+
+
+def fetched_rows(ob_id):
+    return KModelOb(ob_id, 'filterblock:fetched', 'fetched_rows', 'Storage::add_fetched_header / add_fetched_tx (real text): one atomic batch that always (re)writes the header row and the '
+                    'number -> hash mapping of the proved block (get_transaction_with_header resolves the block by number) plus the transaction row (number, u32::MAX, tx)',
+                    lambda repo: ex_filterblock(repo) + ex_fetched(repo), 'arbitrary header (number, hash id), transaction, arbitrary "header already stored" flag', cuts=CUTS, timeout=900, mem_gb=8, min_covers=1, weight=2,
+                    rustflags='--cfg fb_small --cfg fb_fetched', field_sensitivity=True)
+
+
+def filter_block_quick(ob_id='O3.1-filter-block'):
+    return KModelOb(ob_id, 'filterblock', 'filter_block_one_tx', 'Storage::filter_block (real text): the committed batch is exactly the ground-truth delta - live cell + history + '
                  'transaction row for every output of a registered script (lock and/or type), deletion of the RIGHT live cell + input history for every spent cell, '
-                 'header rows iff something matched, nothing else', ex_filterblock,
-                 '1 tx x 1 input x 1 output with optional type script (one lock and one type script registered), 1 stored transaction, arbitrary numbers', cuts=CUTS,
-                 timeout=1500, mem_gb=12, min_covers=2, weight=5, tiers=('quick',), rustflags='--cfg fb_small', field_sensitivity=True),
+                 'header rows (ALWAYS rewritten: the number -> hash mapping may be left over from an abandoned branch) iff something matched, nothing else', ex_filterblock,
+                 '1 tx x 1 input x 1 output with optional type script (one lock and one type script registered), 1 stored transaction, arbitrary numbers, arbitrary "header already stored" flag', cuts=CUTS,
+                 timeout=1500, mem_gb=12, min_covers=2, weight=5, tiers=('quick',), rustflags='--cfg fb_small', field_sensitivity=True)
+
+
+def obligations():
+    return [filter_block_quick(), fetched_rows('O3.2-fetched-rows'),
         KModelOb('O3.1-filter-block-2tx', 'filterblock', 'filter_block_lock_only', 'as O3.1 with two transactions, so that a spend of an output created earlier in the same block is covered; '
                  'outputs without type scripts', ex_filterblock,
                  '2 txs x 1 input x 1 output, outputs WITHOUT type scripts', cuts=CUTS, timeout=5400, mem_gb=24, min_covers=2, weight=9, tiers=('thorough',), field_sensitivity=True),
